@@ -442,44 +442,39 @@ End FixedPoint.
 
 (* ---- TypeVar lines: sorting a sorted list ---- *)
 
-Fixpoint sorted_tp (l : list tparam) : bool :=
-  match l with
-  | x :: ((y :: _) as r) => (tp_name x <=? tp_name y)%N && sorted_tp r
-  | _ => true
-  end.
-
-Lemma insert_tp_sorted : forall t l, sorted_tp l = true -> sorted_tp (insert_tp t l) = true.
+Lemma insert_tp_sorted : forall t l, sorted_tps l = true -> sorted_tps (insert_tp t l) = true.
 Proof.
   intros t. induction l as [|x r IH]; intros H; [reflexivity|].
   cbn [insert_tp]. destruct (tp_name t <=? tp_name x)%N eqn:E.
-  - cbn [sorted_tp]. rewrite E. exact H.
+  - cbn [sorted_tps]. rewrite E. exact H.
   - assert (Hxt: (tp_name x <=? tp_name t)%N = true) by (apply N.leb_le; apply N.leb_gt in E; lia).
     destruct r as [|y r'].
     + cbn. rewrite Hxt. reflexivity.
-    + cbn [sorted_tp] in H. apply andb_true_iff in H. destruct H as [Hxy Hr].
+    + cbn [sorted_tps] in H. apply andb_true_iff in H. destruct H as [Hxy Hr].
       specialize (IH Hr). cbn [insert_tp] in *. destruct (tp_name t <=? tp_name y)%N eqn:E2.
-      * cbn [sorted_tp] in *. rewrite Hxt, E2. exact Hr.
-      * cbn [sorted_tp] in *. rewrite Hxy. exact IH.
+      * cbn [sorted_tps] in *. rewrite Hxt, E2. exact Hr.
+      * cbn [sorted_tps] in *. rewrite Hxy. exact IH.
 Qed.
 
-Lemma sort_tps_sorted : forall l, sorted_tp (sort_tps l) = true.
+Lemma sort_tps_sorted : forall l, sorted_tps (sort_tps l) = true.
 Proof. induction l as [|x r IH]; [reflexivity|]. cbn [sort_tps fold_right]. apply insert_tp_sorted. exact IH. Qed.
 
-Lemma sort_tps_id : forall l, sorted_tp l = true -> sort_tps l = l.
+Lemma sort_tps_id : forall l, sorted_tps l = true -> sort_tps l = l.
 Proof.
   induction l as [|x r IH]; intros H; [reflexivity|].
   change (sort_tps (x :: r)) with (insert_tp x (sort_tps r)).
   destruct r as [|y r']; [reflexivity|].
-  cbn [sorted_tp] in H. apply andb_true_iff in H. destruct H as [Hxy Hr]. rewrite (IH Hr).
+  cbn [sorted_tps] in H. apply andb_true_iff in H. destruct H as [Hxy Hr]. rewrite (IH Hr).
   cbn [insert_tp]. rewrite Hxy. reflexivity.
 Qed.
 
 Lemma sorted_tp_map : forall (g : tparam -> tparam) l, (forall t, tp_name (g t) = tp_name t) ->
-  sorted_tp l = true -> sorted_tp (map g l) = true.
+  sorted_tps l = true -> sorted_tps (map g l) = true.
 Proof.
   intros g l Hg. induction l as [|x [|y r] IH]; intros H; [reflexivity|reflexivity|].
-  cbn [sorted_tp] in H. apply andb_true_iff in H. destruct H as [Hxy Hr].
-  cbn [map sorted_tp]. rewrite !Hg, Hxy. apply IH. exact Hr.
+  cbn [sorted_tps] in H. apply andb_true_iff in H. destruct H as [Hxy Hr].
+  change (sorted_tps (map g (x :: y :: r))) with ((tp_name (g x) <=? tp_name (g y))%N && sorted_tps (map g (y :: r))).
+  rewrite (Hg x), (Hg y), Hxy. apply IH. exact Hr.
 Qed.
 
 Lemma print_tparam_norm : forall env t, wf_tparam env t = true -> stable_tparam t = true ->
@@ -551,3 +546,270 @@ Proof.
   intros u Hwf Hst. rewrite (print_unit_fixed_point_lemma u Hwf Hst). apply parse_unit_print_lemma. exact Hwf.
 Qed.
 End FixedUnit.
+
+(* ================================================================================================ *)
+(* structural equality of the re-read declarations with the printed ones *)
+
+Lemma sig_reparse_equal_muts : forall env scope c s,
+  wf_sig env scope c s = true -> stable_sig c s = true -> eq_stable_sig c s = true ->
+  forallb (fun p => match p_mut p with Some m => eq_stable (ctx_plain c) m | None => true end) (s_params s) = true ->
+  sig_eq (norm_sig c s) (unqual_sig s) = true.
+Proof.
+  intros env scope c s Hwf Hst Heq Hmeq.
+  destruct (wf_sig_parts env scope c s Hwf) as (Hps & Hk & Hd & Hstar & Hsstar & Hret & Hnev).
+  destruct (wf_sig_more env scope c s Hwf) as (Hmut & _ & _).
+  pose proof (stable_sig_parts c s Hst) as (Sp & Sstar & Ssstar & Sret & Hself).
+  unfold eq_stable_sig in Heq. repeat (apply andb_true_iff in Heq; destruct Heq as [Heq ?]).
+  rename H into Enn, H0 into Eret, H1 into Esstar, H2 into Estar.
+  apply negb_true_iff in Enn.
+  rewrite (norm_sig_simple c s Hself). unfold sig_eq, unqual_sig. cbn [s_params s_star s_sstar s_ret].
+  repeat (apply andb_true_iff; split).
+  - (* parameters *)
+    apply list_eqb_map. intros p Hp. unfold param_eq, norm_param, unqual_param. cbn [p_name p_ty p_kind p_opt p_mut].
+    rewrite N.eqb_refl, pkind_eqb_refl, Bool.eqb_reflx.
+    rewrite forallb_forall in Heq, Hmeq. specialize (Heq p Hp). specialize (Hmeq p Hp).
+    destruct (Sp p Hp) as (St & _ & Sm).
+    assert (Emut: opt_eq ty_eq (match p_mut p with Some m => Some (norm (ctx_plain c) m) | None => None end)
+                               (match p_mut p with Some m => Some (unqual m) | None => None end) = true).
+    { destruct (p_mut p) as [m|] eqn:Em; [|reflexivity]. cbn [opt_eq].
+      destruct (Hmut p m Hp Em) as [Hwm _]. apply (reparse_equal_lemma env); assumption. }
+    rewrite Emut. rewrite !andb_true_r.
+    apply andb_true_iff in Heq. destruct Heq as [Et Hshown].
+    unfold norm_pty, shown in *.
+    destruct (elided c (p_name p) (p_ty p) (print_ty (ctx_param c) (p_ty p))).
+    + rewrite orb_false_r in Hshown. destruct (p_ty p); try discriminate. reflexivity.
+    + apply (reparse_equal_lemma env); [apply Hps; exact Hp | exact St | exact Et].
+  - (* *args *)
+    destruct (s_star s) as [[nm t]|] eqn:Es; [|reflexivity]. cbn [opt_eq].
+    specialize (Hstar _ eq_refl). unfold star_shape_t in Estar. cbn [fst snd] in *.
+    unfold star_eq, norm_star. cbn [fst snd].
+    destruct Sstar as [Se _].
+    destruct t; try discriminate.
+    + cbn [container_elem]. rewrite elided_any. cbn [fst snd unqual ty_eq]. rewrite N.eqb_refl. exact Estar.
+    + destruct ps as [|e [|e2 pr]]; try discriminate.
+      apply andb_true_iff in Estar. destruct Estar as [Estar Ee]. apply andb_true_iff in Estar. destruct Estar as [En Enel].
+      apply negb_true_iff in Enel. cbn [container_elem last] in *. rewrite Enel. cbn [fst snd unqual ty_eq map list_eqb].
+      rewrite N.eqb_refl, En. cbn [andb]. rewrite andb_true_r.
+      unfold wf_container in Hstar. cbn [snd last] in Hstar. apply andb_true_iff in Hstar. destruct Hstar as [Hwe _].
+      apply (reparse_equal_lemma env); assumption.
+  - (* **kwargs *)
+    destruct (s_sstar s) as [[nm t]|] eqn:Es; [|reflexivity]. cbn [opt_eq].
+    specialize (Hsstar _ eq_refl). unfold star_shape_d in Esstar. cbn [fst snd] in *.
+    unfold star_eq, norm_sstar. cbn [fst snd].
+    destruct Ssstar as [Se _].
+    destruct t; try discriminate.
+    + cbn [container_elem]. rewrite elided_any. cbn [fst snd unqual ty_eq]. rewrite N.eqb_refl. exact Esstar.
+    + destruct ps as [|k [|e [|e3 pr]]]; try discriminate.
+      apply andb_true_iff in Esstar. destruct Esstar as [Esstar Ee]. apply andb_true_iff in Esstar. destruct Esstar as [Esstar Enel].
+      apply andb_true_iff in Esstar. destruct Esstar as [En Ek].
+      apply negb_true_iff in Enel. cbn [container_elem last] in *. rewrite Enel. cbn [fst snd unqual ty_eq map list_eqb].
+      rewrite N.eqb_refl, En. cbn [andb]. rewrite andb_true_r.
+      unfold wf_container in Hsstar. cbn [snd last] in Hsstar. apply andb_true_iff in Hsstar. destruct Hsstar as [Hwe _].
+      cbn [ty_eq unqual] in Ek. rewrite Ek. cbn [andb]. apply (reparse_equal_lemma env); assumption.
+  - (* return type *)
+    unfold norm_ret. rewrite Enn. apply (reparse_equal_lemma env); assumption.
+Qed.
+
+Lemma fsig_reparse_equal : forall env scope c nm f,
+  wf_fsig env scope c f = true -> stable_fsig c nm f = true -> eq_stable_fsig c f = true ->
+  fsig_eq (norm_fsig c nm f) (unqual_fsig f) = true.
+Proof.
+  intros env scope c nm [s excs] Hwf Hst Heq. unfold wf_fsig, stable_fsig, eq_stable_fsig in *. cbn [f_sig f_exc] in *.
+  apply andb_true_iff in Hwf; destruct Hwf as [Hwf Hex]. apply andb_true_iff in Hst; destruct Hst as [Hss Hse].
+  apply andb_true_iff in Heq; destruct Heq as [Heq Hee]. apply andb_true_iff in Heq; destruct Heq as [Hes Hem].
+  unfold fsig_eq, norm_fsig, unqual_fsig. cbn [f_sig f_exc].
+  rewrite (sig_reparse_equal_muts env scope c s Hwf Hss Hes Hem). cbn [andb].
+  apply list_eqb_map. intros e He. rewrite forallb_forall in Hex, Hse, Hee.
+  apply (reparse_equal_lemma env); auto.
+Qed.
+
+Lemma list_eqb_N_refl' : forall l, list_eqb N.eqb l l = true. Proof. exact list_eqb_N_refl. Qed.
+
+Section FixedEq.
+Variable fixed : bool.
+
+Lemma func_reparse_equal : forall env scope c f,
+  wf_func fixed env scope c f = true -> stable_func fixed c f = true -> eq_stable_func c f = true ->
+  func_eq (norm_func fixed c f) (unqual_func f) = true.
+Proof.
+  intros env scope c f Hwf Hst Heq.
+  destruct (wf_func_parts fixed env scope c f Hwf) as (_ & _ & Hsigs & _ & _).
+  destruct (stable_func_parts fixed c f Hst) as (Hss & Hfc & _ & Hk).
+  unfold eq_stable_func in Heq. apply andb_true_iff in Heq. destruct Heq as [Hes Hnp]. apply negb_true_iff in Hnp.
+  destruct (flags_consistent_parts f Hfc) as (Hi & Hn & Hkn).
+  assert (Esigs: list_eqb fsig_eq (map (norm_fsig c (fn_name f)) (fn_sigs f)) (map unqual_fsig (fn_sigs f)) = true).
+  { apply list_eqb_map. intros s Hs. rewrite forallb_forall in Hsigs, Hss, Hes.
+    apply (fsig_reparse_equal env scope c (fn_name f) s); auto. }
+  rewrite (norm_func_bare fixed c f Hi Hn).
+  destruct f as [nm sigs kind ab co fi X]. unfold bare. cbn [fn_name fn_sigs fn_kind fn_abs fn_cor fn_fin fn_decos] in *.
+  assert (Hcond: match kind with
+                 | KProp => negb (nm =? id_new)%N && negb (nm =? id_init_subclass)%N && fixed && negb fi
+                 | KStatic => negb (nm =? id_init_subclass)%N
+                 | KClass => negb (nm =? id_new)%N
+                 | KMethod => negb (nm =? id_new)%N && negb (nm =? id_init_subclass)%N
+                 end = true).
+  { destruct kind; try exact Hkn. discriminate. }
+  destruct (bare_decos fixed c nm sigs kind ab co fi Hcond) as (_ & Ekind & Eab & Eco & Efi & Edec).
+  set (g := norm_func fixed c (mkFn nm sigs kind ab co fi [])) in *.
+  unfold func_eq, with_decos, unqual_func. cbn [fn_name fn_sigs fn_kind fn_abs fn_cor fn_fin fn_decos].
+  rewrite Ekind, Eab, Eco, Efi, Edec.
+  change (fn_name g) with nm. change (fn_sigs g) with (map (norm_fsig c nm) sigs).
+  rewrite N.eqb_refl, Esigs, !eqb_refl_b.
+  assert (Ed: X ++ match kind with KProp => [id_property] | _ => [] end = X) by (destruct kind; try apply app_nil_r; discriminate).
+  rewrite Ed, list_eqb_N_refl. destruct kind; reflexivity.
+Qed.
+
+Lemma const_reparse_equal : forall env c k, wf_const env k = true -> stable_const c k = true ->
+  eq_stable (ctx_plain c) (k_ty k) = true -> const_eq (norm_const c k) (unqual_const k) = true.
+Proof.
+  intros env c k Hw Hs He. unfold wf_const in Hw. apply andb_true_iff in Hw. destruct Hw as [_ Hw].
+  unfold const_eq, norm_const, unqual_const, stable_const in *. cbn [k_name k_ty k_val].
+  rewrite N.eqb_refl, eqb_refl_b, (reparse_equal_lemma env (ctx_plain c) (k_ty k) Hw Hs He). reflexivity.
+Qed.
+
+Lemma kw_reparse_equal : forall env c kv, wf_kw env kv = true -> alias_eq (norm_kw c kv) (unqual_alias kv) = true.
+Proof.
+  intros env c [k t] H. unfold wf_kw in H. cbn [fst snd] in H. unfold alias_eq, norm_kw, unqual_alias. cbn [fst snd].
+  rewrite N.eqb_refl. cbn [andb].
+  destruct t as [n| | | |v| | | | |]; try discriminate.
+  - cbn [norm unqual ty_eq]. apply name_eqb_refl.
+  - destruct v as [|ic b| |]; try discriminate. cbn [norm unqual ty_eq pv]. apply lit_eqb_refl.
+Qed.
+
+Definition cls_equal (cl : cls) : Prop :=
+  forall env scope nested, wf_cls fixed env scope nested cl = true -> stable_cls fixed cl = true -> eq_stable_cls cl = true ->
+  cls_eq (norm_cls fixed cl) (unqual_cls cl) = true.
+
+Theorem cls_reparse_equal : forall cl, cls_equal cl.
+Proof.
+  induction cl using cls_ind'. rename H into IH. unfold cls_equal. intros env scope nested Hwf Hst Heq.
+  destruct (wf_cls_unfold fixed _ _ _ _ _ _ _ _ _ _ _ Hwf) as (Hn & Hb & Hk & Hdec & Hco & Hsl & Hm & Hnd & Hcl).
+  cbn zeta in *. set (c := mkCtx false (Some n)) in *.
+  set (sc := scope ++ flat_map tparams (norm_bases c n b)) in *.
+  cbn [stable_cls] in Hst. fold c in Hst.
+  apply andb_true_iff in Hst; destruct Hst as [Hst Scl]. apply andb_true_iff in Hst; destruct Hst as [Hst Sm].
+  apply andb_true_iff in Hst; destruct Hst as [Sb Sk].
+  cbn [eq_stable_cls] in Heq. fold c in Heq.
+  apply andb_true_iff in Heq; destruct Heq as [Heq Ecl]. apply andb_true_iff in Heq; destruct Heq as [Heq Em].
+  apply andb_true_iff in Heq; destruct Heq as [Heq Ek]. apply andb_true_iff in Heq; destruct Heq as [Heq Ed].
+  apply andb_true_iff in Heq; destruct Heq as [Heq Enobj]. apply andb_true_iff in Heq; destruct Heq as [Eb Ebne].
+  apply negb_true_iff in Enobj.
+  set (ms' := map (norm_func fixed c) ms).
+  assert (Eprops: filter const_property ms' = []).
+  { unfold ms'. clear - Sm. induction ms as [|f r IHr]; [reflexivity|]. cbn [forallb] in Sm. apply andb_true_iff in Sm. destruct Sm as [Sf Sr].
+    destruct (stable_func_parts fixed c f Sf) as (_ & _ & Hc & _). cbn [map filter]. rewrite Hc. apply IHr. exact Sr. }
+  assert (Emeth: filter (fun f => negb (const_property f)) ms' = ms').
+  { apply filter_all. unfold ms'. rewrite forallb_forall. intros g Hg. apply in_map_iff in Hg. destruct Hg as (f & <- & Hf).
+    rewrite forallb_forall in Sm. destruct (stable_func_parts fixed c f (Sm f Hf)) as (_ & _ & Hc & _). rewrite Hc. reflexivity. }
+  cbn [norm_cls unqual_cls cls_eq c_name c_bases c_kws c_decos c_slots c_classes c_consts c_methods]. fold c. fold ms'.
+  rewrite Eprops, Emeth. cbn [map]. rewrite app_nil_r.
+  rewrite N.eqb_refl. rewrite (dedup_nodup _ _ Ed), list_eqb_N_refl.
+  (* bases *)
+  assert (Ebases: list_eqb ty_eq (norm_bases c n b) (map unqual b) = true).
+  { assert (Hone: forall t, In t b -> wf env t = true /\ stable (ctx_plain c) t = true /\ is_nothing (norm (ctx_plain c) t) = false).
+    { intros t Ht. rewrite forallb_forall in Hb, Sb. specialize (Hb t Ht). specialize (Sb t Ht).
+      unfold wf_base in Hb. apply andb_true_iff in Hb. destruct Hb as [Hw Hsh]. apply andb_true_iff in Sb. destruct Sb as [Hnn Hs].
+      repeat split; try assumption. destruct t; try discriminate; try reflexivity.
+      cbn [norm]. destruct (tokens_eqb _ _); [reflexivity|]. destruct (name_eqb _ _); reflexivity. }
+    assert (Hall: forall l, (forall t, In t l -> In t b) -> l <> [] ->
+              list_eqb ty_eq (final_bases n (map (norm (ctx_plain c)) l)) (map unqual l) = true).
+    { intros l Hl Hne. unfold final_bases.
+      assert (Ef: filter (fun t => negb (is_nothing t)) (map (norm (ctx_plain c)) l) = map (norm (ctx_plain c)) l).
+      { apply filter_all. rewrite forallb_forall. intros t Ht. apply in_map_iff in Ht. destruct Ht as (t0 & <- & Ht0).
+        destruct (Hone t0 (Hl t0 Ht0)) as (_ & _ & Hx). rewrite Hx. reflexivity. }
+      rewrite Ef. destruct l as [|l0 lr]; [congruence|].
+      change (match map (norm (ctx_plain c)) (l0 :: lr) with [] => if (n =? id_object)%N then [] else [Named (NP id_object)] | t :: l1 => t :: l1 end)
+        with (map (norm (ctx_plain c)) (l0 :: lr)).
+      apply list_eqb_map. intros t Ht. destruct (Hone t (Hl t Ht)) as (Hw & Hs & _).
+      rewrite forallb_forall in Eb. apply (reparse_equal_lemma env); auto. }
+    rewrite norm_bases_kept. unfold kept_bases.
+    destruct b as [|b0 [|b1 br]].
+    - discriminate.
+    - destruct (tokens_eqb (print_ty (ctx_plain c) b0) [TName id_object]) eqn:Eo.
+      + (* the single base prints as `object`: the reader puts object back *)
+        destruct (Hone b0 (or_introl eq_refl)) as (Hw0 & _ & _).
+        apply tokens_eqb_true in Eo. rewrite forallb_forall in Hb. specialize (Hb b0 (or_introl eq_refl)).
+        unfold wf_base in Hb. apply andb_true_iff in Hb. destruct Hb as [_ Hsh].
+        destruct b0 as [nn| | | | |bb ps| | | |]; try discriminate.
+        * cbn [print_ty] in Eo. unfold print_name in Eo. destruct (name_id nn =? id_NoneType)%N eqn:En; [discriminate|].
+          injection Eo as Eo. cbn [map final_bases filter]. cbn [wf] in Hw0.
+          destruct nn as [i|i|i]; cbn [name_id] in Eo; subst i.
+          -- rewrite Enobj. reflexivity.
+          -- cbn [wf_name] in Hw0. vm_compute in Hw0. discriminate.
+          -- rewrite Enobj. reflexivity.
+        * exfalso. cbn [print_ty] in Eo. destruct (tokens_eqb (print_name bb) [TName id_tuple]); [|destruct (name_eqb bb (NT id_Callable))];
+            unfold sub in Eo; apply (f_equal (@length token)) in Eo; rewrite app_length in Eo; cbn [length] in Eo;
+            rewrite app_length in Eo; cbn [length] in Eo; unfold print_name in Eo; destruct (name_id bb =? id_NoneType)%N; cbn [length] in Eo; lia.
+      + apply Hall; [intros t Ht; exact Ht|discriminate].
+    - apply Hall; [intros t Ht; exact Ht|discriminate]. }
+  rewrite Ebases.
+  assert (Ekws: list_eqb alias_eq (map (norm_kw c) k) (map unqual_alias k) = true).
+  { apply list_eqb_map. intros kv Hkv. rewrite forallb_forall in Hk. apply (kw_reparse_equal env c kv (Hk kv Hkv)). }
+  rewrite Ekws.
+  assert (Eslots: opt_eq (list_eqb N.eqb) s s = true) by (destruct s; [apply list_eqb_N_refl|reflexivity]).
+  rewrite Eslots.
+  assert (Ecs: list_eqb cls_eq (map (norm_cls fixed) cs) (map unqual_cls cs) = true).
+  { clear - IH Hcl Scl Ecl. revert Hcl Scl Ecl. induction IH as [|x r Hx _ IHr]; intros Hcl Scl Ecl; [reflexivity|].
+    cbn [forallb] in *. apply andb_true_iff in Hcl. apply andb_true_iff in Scl. apply andb_true_iff in Ecl.
+    destruct Hcl as [Hx1 Hr1]. destruct Scl as [Hx2 Hr2]. destruct Ecl as [Hx3 Hr3].
+    cbn [map list_eqb]. rewrite (Hx _ _ _ Hx1 Hx2 Hx3). apply (IHr Hr1 Hr2 Hr3). }
+  rewrite Ecs.
+  assert (Eks: list_eqb const_eq (map (norm_const c) ks) (map unqual_const ks) = true).
+  { apply list_eqb_map. intros k0 Hk0. rewrite forallb_forall in Hco, Sk, Ek.
+    apply (const_reparse_equal env c k0 (Hco k0 Hk0) (Sk k0 Hk0) (Ek k0 Hk0)). }
+  rewrite Eks.
+  assert (Ems: list_eqb func_eq ms' (map unqual_func ms) = true).
+  { unfold ms'. apply list_eqb_map. intros f Hf. rewrite forallb_forall in Hm, Sm, Em.
+    apply (func_reparse_equal env sc c f (Hm f Hf) (Sm f Hf) (Em f Hf)). }
+  rewrite Ems. reflexivity.
+Qed.
+End FixedEq.
+
+Section FixedEqUnit.
+Variable fixed : bool.
+
+Theorem unit_reparse_equal_lemma : forall u,
+  wf_unit fixed u = true -> stable_unit fixed u = true -> eq_stable_unit u = true ->
+  unit_eq (norm_unit fixed u) (unqual_unit u) = true.
+Proof.
+  intros u Hwf Hst Heq. destruct (wf_unit_parts fixed u Hwf) as (Htp & Hal & Hco & Hcl & Hfn & _ & _). cbn zeta in *.
+  set (env := map tp_name (sort_tps (u_tparams u))) in *.
+  unfold stable_unit in Hst.
+  apply andb_true_iff in Hst; destruct Hst as [Hst Sfn]. apply andb_true_iff in Hst; destruct Hst as [Hst Scl].
+  apply andb_true_iff in Hst; destruct Hst as [Hst Sco]. apply andb_true_iff in Hst; destruct Hst as [Stp Sal].
+  unfold eq_stable_unit in Heq.
+  apply andb_true_iff in Heq; destruct Heq as [Heq Efn]. apply andb_true_iff in Heq; destruct Heq as [Heq Ecl].
+  apply andb_true_iff in Heq; destruct Heq as [Heq Eco]. apply andb_true_iff in Heq; destruct Heq as [Heq Eal].
+  apply andb_true_iff in Heq; destruct Heq as [Esort Etp].
+  destruct (wf_aliases_filter env (u_aliases u) Hal) as [Ea1 Ea2].
+  unfold norm_unit, unqual_unit, unit_eq. rewrite Ea1, Ea2. cbn [map app u_tparams u_aliases u_consts u_classes u_funcs].
+  rewrite (sort_tps_id _ Esort).
+  assert (E1: list_eqb tparam_eq (map (norm_tparam plain0) (u_tparams u)) (map unqual_tparam (u_tparams u)) = true).
+  { apply list_eqb_map. intros t Ht. rewrite forallb_forall in Htp, Stp, Etp.
+    destruct (wf_tparam_parts env t (Htp t Ht)) as [Hc Hb].
+    specialize (Stp t Ht). unfold stable_tparam in Stp. apply andb_true_iff in Stp. destruct Stp as [Sc Sb].
+    specialize (Etp t Ht). unfold eq_stable_tparam in Etp. apply andb_true_iff in Etp. destruct Etp as [Ec Eb].
+    unfold tparam_eq, norm_tparam, unqual_tparam. cbn [tp_name tp_lit tp_cons tp_bound]. change (ctx_plain plain0) with plain0.
+    rewrite !N.eqb_refl. cbn [andb].
+    assert (Econs: list_eqb ty_eq (map (norm plain0) (tp_cons t)) (map unqual (tp_cons t)) = true).
+    { apply list_eqb_map. intros x Hx. rewrite forallb_forall in Hc, Sc, Ec. apply (reparse_equal_lemma env); auto. }
+    rewrite Econs. cbn [andb]. destruct (tp_bound t) as [b|]; [|reflexivity]. cbn [opt_eq].
+    apply (reparse_equal_lemma env); auto. }
+  assert (E2: list_eqb alias_eq (map (norm_alias plain0) (u_aliases u)) (map unqual_alias (u_aliases u)) = true).
+  { apply list_eqb_map. intros a Ha. rewrite forallb_forall in Hal, Sal, Eal.
+    specialize (Hal a Ha). unfold wf_alias in Hal. apply andb_true_iff in Hal; destruct Hal as [Hal _].
+    apply andb_true_iff in Hal; destruct Hal as [Hal _]. apply andb_true_iff in Hal; destruct Hal as [_ Hw].
+    unfold alias_eq, norm_alias, unqual_alias. cbn [fst snd]. change (ctx_plain plain0) with plain0. rewrite N.eqb_refl. cbn [andb].
+    apply (reparse_equal_lemma env); auto. }
+  assert (E3: list_eqb const_eq (map (norm_const plain0) (u_consts u)) (map unqual_const (u_consts u)) = true).
+  { apply list_eqb_map. intros k Hk. rewrite forallb_forall in Hco, Sco, Eco.
+    apply (const_reparse_equal env plain0 k (Hco k Hk) (Sco k Hk)). change (ctx_plain plain0) with plain0. apply Eco. exact Hk. }
+  assert (E4: list_eqb cls_eq (map (norm_cls fixed) (u_classes u)) (map unqual_cls (u_classes u)) = true).
+  { apply list_eqb_map. intros x Hx. rewrite forallb_forall in Hcl, Scl, Ecl.
+    apply (cls_reparse_equal fixed x env [] false (Hcl x Hx) (Scl x Hx) (Ecl x Hx)). }
+  assert (E5: list_eqb func_eq (map (norm_func fixed plain0) (u_funcs u)) (map unqual_func (u_funcs u)) = true).
+  { apply list_eqb_map. intros f Hf. rewrite forallb_forall in Hfn, Sfn, Efn.
+    apply (func_reparse_equal fixed env [] plain0 f (Hfn f Hf) (Sfn f Hf) (Efn f Hf)). }
+  rewrite E1, E2, E3, E4, E5. reflexivity.
+Qed.
+End FixedEqUnit.
